@@ -1214,13 +1214,19 @@ def dtype_contracts():
     return cs
 
 
-PARKED = []
+PARKED = []  # contracts that FAIL on the unchanged tree (natively reproduced candidate defects, notes/C07-shape.md); kept out of the check
+
+
+def parked_contracts():
+    _, parked = transpose_contracts()
+    _, rparked = reshape_contracts()
+    return parked + rparked + [Unravel(1, 0, size_check=True), Unravel(2, 1, size_check=True)]
 
 
 def contracts():
     live, parked = transpose_contracts()
     rlive, rparked = reshape_contracts()
-    PARKED[:] = parked + rparked + [Unravel(1, 0, size_check=True), Unravel(2, 1, size_check=True)]
+    PARKED[:] = parked_contracts()
     cs = broadcasting_contracts() + live + joining_contracts() + indexing_contracts() + rlive + dtype_contracts()
     if os.environ.get('VERIF_C07_PARKED'):
         cs += PARKED  # experiments only: these fail on the unchanged tree (candidate defects, notes/C07-shape.md)
